@@ -176,3 +176,86 @@ _build17 = build
 def build(eng, tier):
     _build17(eng, tier)
     add_declare_outputs_target(eng)
+
+
+_build17b = build
+
+
+def build(eng, tier):
+    _build17b(eng, tier)
+    add_output_scope_obligations(eng)
+
+
+def add_output_scope_obligations(eng):
+    """`returns an IR whose use-def and ownership links are consistent`: a graph's outputs must be values of THAT graph's own
+    scope (or fresh placeholders for producer-less outputs) - an output taken from an enclosing scope would make one Value an
+    output of two graphs and the (sub)graph's output would have no producer inside it.  Data-flow obligation on the real
+    _deserialize_graph: every value that reaches the `outputs` list is a `_core.Value(...)` construction or a subscript of the
+    scope dictionary this call created and pushed - followed through a helper function when the loop body was extracted into
+    one (the helper's parameter that receives the scope dictionary then plays its role)."""
+    import ast as _ast
+    from pyvc import extract
+    BK = "output-scope (syntactic data flow, onnx_ir.serde)"
+    tree = _ast.parse(open(extract.module_path(SERDE)).read())
+    funcs = {n.name: n for n in _ast.walk(tree) if isinstance(n, _ast.FunctionDef)}
+    fn = funcs.get("_deserialize_graph")
+    if fn is None:
+        eng.add_static("output-scope/_deserialize_graph", False, "function not found", backend=BK)
+        return
+    scopes = {c.args[0].id for c in _ast.walk(fn) if isinstance(c, _ast.Call) and isinstance(c.func, _ast.Attribute) and c.func.attr == "append"
+              and isinstance(c.func.value, _ast.Name) and c.func.value.id == "scoped_values" and c.args and isinstance(c.args[0], _ast.Name)}
+
+    def origin_ok(val, scope_names, body, depth=0):
+        """is the expression a new Value, a subscript / .get of a scope dictionary, a variable all of whose definitions in `body`
+        are, or a call of a module function whose every return is (with the scope passed on)?"""
+        if isinstance(val, _ast.Call) and _ast.unparse(val.func) in ("_core.Value", "Value"):
+            return True, ""
+        if isinstance(val, _ast.Subscript) and isinstance(val.value, _ast.Name) and val.value.id in scope_names:
+            return True, ""
+        if isinstance(val, _ast.Name):
+            defs = []
+            for n in _ast.walk(body):
+                if isinstance(n, _ast.Assign) and any(isinstance(t, _ast.Name) and t.id == val.id for t in n.targets):
+                    defs.append(n.value)
+                elif isinstance(n, _ast.NamedExpr) and isinstance(n.target, _ast.Name) and n.target.id == val.id:
+                    defs.append(n.value)
+            if not defs:
+                return False, f"{val.id} has no definition here"
+            for d in defs:
+                ok, why = origin_ok(d, scope_names, body, depth)
+                if not ok:
+                    return False, why or f"line {d.lineno}: {_ast.unparse(d)[:60]}"
+            return True, ""
+        if isinstance(val, _ast.Call) and isinstance(val.func, _ast.Name) and val.func.id in funcs and depth < 2:
+            h = funcs[val.func.id]
+            params = [a.arg for a in h.args.posonlyargs + h.args.args]
+            inner = {params[i] for i, a in enumerate(val.args) if i < len(params) and isinstance(a, _ast.Name) and a.id in scope_names}
+            inner |= {k.arg for k in val.keywords if isinstance(k.value, _ast.Name) and k.value.id in scope_names}
+            rets = [r for r in _ast.walk(h) if isinstance(r, _ast.Return) and r.value is not None]
+            if not rets:
+                return False, f"{h.name} returns nothing"
+            for r in rets:
+                ok, why = origin_ok(r.value, inner, h, depth + 1)
+                if not ok:
+                    return False, f"{h.name}: " + (why or f"line {r.lineno}: {_ast.unparse(r.value)[:60]}")
+            return True, ""
+        return False, f"line {getattr(val, 'lineno', '?')}: {_ast.unparse(val)[:60]}"
+
+    sources = []        # expressions whose value ends up in `outputs`
+    for n in _ast.walk(fn):
+        if isinstance(n, _ast.Call) and isinstance(n.func, _ast.Attribute) and n.func.attr == "append" and isinstance(n.func.value, _ast.Name) \
+                and n.func.value.id == "outputs" and n.args:
+            sources.append(n.args[0])
+        if isinstance(n, _ast.Assign) and any(isinstance(t, _ast.Name) and t.id == "outputs" for t in n.targets) and \
+                isinstance(n.value, (_ast.ListComp, _ast.GeneratorExp)):
+            sources.append(n.value.elt)
+    eng.add_static("output-scope/_deserialize_graph/sites", len(sources) >= 1 and len(scopes) == 1,
+                   f"{len(sources)} expression(s) feed `outputs`; scope dictionaries pushed: {sorted(scopes)}", backend=BK)
+    bad = []
+    for src in sources:
+        ok, why = origin_ok(src, scopes, fn)
+        if not ok:
+            bad.append(why)
+    eng.add_static("output-scope/_deserialize_graph/definitions", not bad and bool(sources),
+                   (f"every value that reaches `outputs` is a new Value or a subscript of {sorted(scopes)}" if not bad else
+                    "a graph output may come from outside this graph's own scope: " + "; ".join(bad)), backend=BK)
